@@ -345,6 +345,13 @@ class Malformed(MilStream):
         cs.append(dict(fn="Milenage_check", opc=f["opc"], k=f["k"], sqn="ff9c", rand=f["rand"], autn=autn, res_len=8, kind="buffer-length sqn"))
         return cs
 
+    def direct_check(self, c, o):
+        # "checking succeeds ... if and only if MAC-A is exactly f1 over the concealed SQN and AMF": an AUTN shorter than
+        # 16 octets carries no complete MAC-A, so whatever else happens it must not be accepted
+        if c["fn"] == "Milenage_check" and len(c["autn"]) < 32 and isinstance(o, dict) and o.get("rc") == 0:
+            return "an AUTN of %d octets (no complete SQN^AK || AMF || MAC-A) is accepted (rc = 0)" % (len(c["autn"]) // 2)
+        return MilStream.direct_check(self, c, o)
+
 
 class Concurrent(Stream):
     """the same library calls made for 8 subscribers at once must give what they give one at a time (the functions are
